@@ -8,6 +8,7 @@ pub mod json;
 pub mod model;
 pub mod obs;
 pub mod lockstep;
+#[cfg(not(feature = "nolock"))]
 pub mod sched;
 pub mod spec;
 pub mod universe;
